@@ -59,6 +59,13 @@ def make_cases(tier, seed, n_random=None, maxlen=None):
                               pre_eos=False, maxlen=bound(tier, g, maxlen)))
             cases.append(dict(name=name, g=g, sr="FloatTiny", alg=alg, rename="id", order=None, heap="real", pre_eos=(i % 2 == 0),
                               maxlen=bound(tier, g, maxlen)))
+    # token-id / byte vocabularies: 0 is a token like any other (falsy, but not epsilon) - strengthened after seeded changes C03-2, C01-8
+    for i, (name, g) in enumerate(doms[:40]):
+        ids = {a: k for k, a in enumerate(sorted(g.V))}
+        gi = type(g)(g.S, frozenset(ids.values()), [(w, h, tuple(ids.get(y, y) for y in b)) for w, h, b in g.rules])
+        for alg in ALGS:
+            cases.append(dict(name=name + "#ids", g=gi, sr=SEMIRINGS[i % 2], alg=alg, rename="id", order=None, heap="real", pre_eos=False,
+                              maxlen=bound(tier, g, maxlen)))
     return cases
 
 
@@ -104,7 +111,7 @@ def check_case(case):
             out["n"] += 1
             if st != "ok":
                 kind = p.split(":")[0]
-                viol(OB_RESOLVES if kind in ("AttributeError", "TypeError") else OB_MASK, "raised: " + kind, c, p, sorted(want))
+                viol(OB_RESOLVES if kind in ("AttributeError", "TypeError") else OB_MASK, "raised: " + kind, c, p, sorted(want, key=repr))
                 if kind == "AttributeError":
                     break       # interface missing: every context fails the same way
                 continue
@@ -112,7 +119,7 @@ def check_case(case):
             if got != want:
                 extra, missing = got - want, want - got
                 viol(OB_MASK, "wrong-mask: " + ("offers non-viable" if extra else "") + ("/" if extra and missing else "")
-                     + ("omits viable" if missing else ""), c, sorted(got), sorted(want))
+                     + ("omits viable" if missing else ""), c, sorted(got, key=repr), sorted(want, key=repr))
             # second clause of the statement, decided a second way: EOS offered <=> c is a string of G
             if EOS not in c:
                 complete = bool(cfgspec.cfg_weight(BOOL, g.map_weights(lambda w: True), c)[0])
@@ -128,11 +135,11 @@ def check_case(case):
             st, p = call(lm.p_next, c)
             out["n"] += 1
             if st != "ok":
-                viol(OB_MASK, "raised on re-query: " + p.split(":")[0], c, p, sorted(wants[c]))
+                viol(OB_MASK, "raised on re-query: " + p.split(":")[0], c, p, sorted(wants[c], key=repr))
                 break
             got = {t for t, v in p.items() if v != 0}
             if got != wants[c]:
-                viol(OB_MASK, "wrong-mask on re-query: " + ("offers non-viable" if got - wants[c] else "omits viable"), c, sorted(got), sorted(wants[c]))
+                viol(OB_MASK, "wrong-mask on re-query: " + ("offers non-viable" if got - wants[c] else "omits viable"), c, sorted(got, key=repr), sorted(wants[c], key=repr))
         if nontrivial:
             out["keys"].append(sig(case["name"], sr, alg, case["rename"], case["heap"]))
         if case["name"] in ("palindrome", "unary_cycle") and case["rename"] == "id":
